@@ -240,6 +240,10 @@ def _build_unit(root, obj, unit, extra_flags):
     d = os.path.join(CACHE, "ir", key[:2])
     out = os.path.join(d, key[2:40] + ".json")
     if os.path.exists(out):
+        try:
+            os.utime(out, None)         # a unit in use is a young file: prune_cache() leaves it alone
+        except OSError:
+            pass
         return obj, out, True
     os.makedirs(d, exist_ok=True)
     tmpbase = os.path.join(d, key[2:40] + ".%d" % os.getpid())
@@ -280,7 +284,14 @@ def build_ir(objs=None, root=None, extra_flags=(), db=None):
     return res
 
 
-def prune_cache(max_files=4000):
+def prune_cache(max_files=20000, min_age=6 * 3600):
+    """drop the oldest IR files when the cache has grown large.  Never while analysing a scratch tree (those runs go on in
+    parallel), and never a file that was produced or used in the last hours: a check that runs next to this one may be about
+    to read it."""
+    if os.environ.get("VERIF_MUTANT_RUN") or os.environ.get("VERIF_REPO"):
+        return
+    import time as _t
+    now = _t.time()
     d = os.path.join(CACHE, "ir")
     files = []
     for dp, _, fs in os.walk(d):
@@ -293,7 +304,9 @@ def prune_cache(max_files=4000):
     if len(files) <= max_files:
         return
     files.sort()
-    for _, p in files[: len(files) - max_files]:
+    for mt, p in files[: len(files) - max_files]:
+        if now - mt < min_age:
+            continue
         try:
             os.unlink(p)
         except OSError:
